@@ -409,3 +409,153 @@ def intBounds : List (String × Bounds) := [
 def boundsOf (name : String) : Option Bounds := (intBounds.find? (·.1 == name)).map (·.2)
 
 end EPV.Lex
+
+/-! ## the numeric / string / boolean / untypedAtomic corner of the casting table
+
+`cast` transcribes what `E cast as xs:T`, `xs:T(E)` and `E castable as xs:T` run for an atomic operand:
+`evaluate__cast_expressions` (xpath2/_xpath2_operators.py:349-414) and `XPathConstructor.evaluate`
+(xpath_tokens/contructors.py:48-66) both unwrap xs:untypedAtomic to its string (fix-c10) and call the
+`cast__*` method of the constructor token (xpath2/_xpath2_constructors.py), which calls the datatypes
+constructor and maps builtin exceptions to error codes.  `castable` is "the cast raised nothing". -/
+namespace EPV.Lex
+
+/-- a finite double as the exact fraction `±n / 2^k` (`float.as_integer_ratio()`), or a special value -/
+inductive Dbl
+  | nan | pinf | ninf
+  | fin (neg : Bool) (n k : Nat)
+deriving DecidableEq, Repr
+
+/-- operand of a cast.  `dbl x r`: `r` is `repr(x)` of CPython (trusted parameter, used only for the
+cast to xs:string).  `dec d`: a Decimal built from a literal. -/
+inductive Atom
+  | str (s : Str)
+  | untyped (s : Str)
+  | bool (b : Bool)
+  | int (v : Int)
+  | dec (d : PyDec)
+  | dbl (x : Dbl) (r : Str)
+deriving Repr
+
+inductive Target
+  | string | untypedAtomic | boolean
+  | integer (b : Bounds)
+  | decimal | double | float
+deriving DecidableEq, Repr
+
+/-- result of a cast; decimals as `(sign, coefficient, scale)` of `Decimal.as_tuple()`; doubles by
+class only (the finite value is `float(...)` of CPython) -/
+inductive CVal
+  | str (s : Str)
+  | untyped (s : Str)
+  | bool (b : Bool)
+  | int (v : Int)
+  | dec (neg : Bool) (coef scale : Nat)
+  | dbl (c : DblClass)
+deriving DecidableEq, Repr
+
+inductive CErr | FORG0001 | FOCA0002 | XPTY0004
+deriving DecidableEq, Repr
+
+/-- a Decimal given by `(sign, coefficient, scale)` as digit strings (for printing):
+`format(d, 'f')` pads the coefficient with zeros up to `scale + 1` digits -/
+def pyDecOfTuple (neg : Bool) (coef scale : Nat) : PyDec :=
+  let ds := Nat.toDigits 10 coef
+  let padded := List.replicate (scale + 1 - ds.length) '0' ++ ds
+  ⟨neg, padded.take (padded.length - scale), padded.drop (padded.length - scale)⟩
+
+/-- `int(Decimal)` / `int(float)`: truncation toward zero -/
+def truncQuot (neg : Bool) (num den : Nat) : Int :=
+  if neg then -((num / den : Nat) : Int) else ((num / den : Nat) : Int)
+
+/-- xpath_tokens/base.py:879-893 (fix-c10) `string_value(float)` given `r = repr(x)`:
+NaN / INF / -INF, else strip a trailing `.0`-style fraction (fixed notation only), drop '+', upper-case
+an exponent form -/
+def rstrip (c : Char) (s : Str) : Str := (s.reverse.dropWhile (· == c)).reverse
+
+def dblString (x : Dbl) (r : Str) : Str :=
+  match x with
+  | .nan => "NaN".toList
+  | .pinf => "INF".toList
+  | .ninf => "-INF".toList
+  | .fin _ _ _ =>
+    let v := if r.contains '.' && !r.contains 'e' then rstrip '.' (rstrip '0' r) else r
+    let v := if v.contains '+' then v.filter (· != '+') else v
+    if v.contains 'e' then v.map Char.toUpper else v
+
+/-- `string_value(obj)` for the operand kinds of this corner -/
+def stringValue : Atom → Str
+  | .str s => s
+  | .untyped s => s
+  | .bool b => if b then "true".toList else "false".toList
+  | .int v => intCanon v
+  | .dec d => decCanon d
+  | .dbl x r => dblString x r
+
+def dblIsZero : Dbl → Bool
+  | .fin _ n _ => n == 0
+  | _ => false
+
+/-- the cast itself (one function for `cast as`, the constructor function and `castable`) -/
+def cast (ver : Ver) (a : Atom) (t : Target) : Except CErr CVal :=
+  match t with
+  | .string => .ok (.str (stringValue a))                      -- cast__string_type
+  | .untypedAtomic => .ok (.untyped (stringValue a))           -- cast__untyped_atomic (fix-c10)
+  | .boolean =>                                                -- cast__boolean_type / BooleanProxy.__new__
+    match a with
+    | .str s | .untyped s =>
+      (match boolCtor s with | .ok b => .ok (.bool b) | .error _ => .error .FORG0001)
+    | .bool b => .ok (.bool b)
+    | .int v => .ok (.bool (v != 0))
+    | .dec d => .ok (.bool (d.coef != 0))
+    | .dbl x _ => .ok (.bool (match x with | .nan => false | .fin _ n _ => n != 0 | _ => true))
+  | .integer b =>                                              -- cast__integer_types / Integer.__new__/__init__
+    match a with
+    | .str s | .untyped s =>
+      (match intCtor b s with | .ok v => .ok (.int v) | .error _ => .error .FORG0001)
+    | .bool x => let v : Int := if x then 1 else 0
+                 if b.ok v then .ok (.int v) else .error .FORG0001
+    | .int v => if b.ok v then .ok (.int v) else .error .FORG0001
+    | .dec d => let v := truncQuot d.neg d.coef (10 ^ d.scale)
+                if b.ok v then .ok (.int v) else .error .FOCA0002
+    | .dbl x _ =>
+      match x with
+      | .fin neg n k => let v := truncQuot neg n (2 ^ k)
+                        if b.ok v then .ok (.int v) else .error .FOCA0002
+      | _ => .error .FOCA0002            -- ValueError (NaN) / OverflowError (INF), operand not a string
+  | .decimal =>                                                -- cast__numeric_types / DecimalProxy.__new__
+    match a with
+    | .str s | .untyped s =>
+      (match decCtor s with | .ok d => .ok (.dec d.neg d.coef d.scale) | .error _ => .error .FORG0001)
+    | .bool x => .ok (.dec false (if x then 1 else 0) 0)
+    | .int v => .ok (.dec (decide (v < 0)) v.natAbs 0)
+    | .dec d => .ok (.dec d.neg d.coef d.scale)
+    | .dbl x _ =>
+      match x with
+      | .fin neg n k => .ok (.dec neg (n * 5 ^ k) k)           -- Decimal.from_float: exact
+      | _ => .error .FOCA0002
+  | .double | .float =>                                        -- cast__numeric_types / get_double / Float.__new__
+    match a with
+    | .str s | .untyped s =>
+      (match dblCtor ver s with | .ok c => .ok (.dbl c) | .error _ => .error .FORG0001)
+    | .dbl x _ => .ok (.dbl (match x with | .nan => .nan | .pinf => .pinf | .ninf => .ninf | .fin _ _ _ => .num))
+    | .int v =>
+      -- CPython `float(int)` raises OverflowError (an ArithmeticError -> FOCA0002) when the integer rounds
+      -- to 2^1024 or more
+      if v.natAbs ≥ 2 ^ 1024 - 2 ^ 970 then .error .FOCA0002 else .ok (.dbl .num)
+    | _ => .ok (.dbl .num)
+
+/-- `E castable as xs:T` -/
+def castable (ver : Ver) (a : Atom) (t : Target) : Bool := (cast ver a t).toBool
+
+end EPV.Lex
+
+namespace EPV.Lex
+
+/-- trigger of known finding F10b, on the number of shortest digits of the double and its decimal
+exponent `e` (value = d.ddd × 10^e): the regions where `string_value` (Python `repr` post-processed)
+differs from the F&O canonical form. -/
+def dblStrTrigger (ndigits : Nat) (e : Int) : Bool :=
+  (e == -6 || e == -5) || (decide (6 ≤ e) && decide (e < 16)) || (decide (16 ≤ e) && ndigits == 1) ||
+  (decide (e < -6) && (ndigits == 1 || decide (-10 < e)))
+
+end EPV.Lex
